@@ -97,6 +97,15 @@ impl Lfo {
     }
 }
 
+/// Read-only observation point for the external verification harness (cargo feature `verif-hooks`)
+#[cfg(feature = "verif-hooks")]
+impl Lfo {
+    /// `lfo.verif_phase_bits()` is the raw value of the phase accumulator
+    pub fn verif_phase_bits(&self) -> u32 {
+        self.phase_accumulator.verif_accumulator()
+    }
+}
+
 /// LFO waveshapes are represented here
 ///
 /// All waveshapes are simultaneously available
